@@ -289,7 +289,7 @@ func c19(r *hx.Run) {
 		for _, deact := range []bool{false, true} {
 			for oi, org := range origins {
 				for _, vid := range []string{"", "ref-9"} {
-					for _, tm := range [][2]uint64{{0, 0}, {1600000000, 1700000000}} {
+					for _, tm := range [][2]uint64{{0, 0}, {1600000000, 1700000000}, {1600000000, 1600000000}, {1600000000, 1500000000}, {1600000000, 0}, {0, 5}} {
 						for ri, refs := range [][]string{nil, {"e1"}, {"e1", "e2"}} {
 							if r.Tier == "quick" && (oi+ri+ci)%2 == 1 && !(oi == 1 && ri == 1) {
 								continue
